@@ -518,6 +518,30 @@ Proof.
   unfold a_ancestors. destruct (a_path n t) as [q|] eqn:E; [left; rewrite rev_length; exact (a_path_length n t q E)|right; reflexivity].
 Qed.
 
+(* the ancestor chain of a node continues with the ancestor chain of each of its members *)
+Lemma ancestors_split t : NoDup (ids t) -> forall a n x b, In n (ids t) -> a_ancestors t n = a ++ x :: b ->
+  In x (ids t) /\ b = a_ancestors t x /\ exists y, In y (ids t) /\ a_parent t y = Some x.
+Proof.
+  intros Hnd. induction a as [|y a' IH]; intros n x b Hn E; rewrite (ancestors_chain t Hnd n Hn) in E;
+    destruct (a_parent t n) as [p|] eqn:Hp; try discriminate; cbn [app] in E; injection E as -> E.
+  - assert (Hx : In x (ids t)) by (destruct (a_parent_some t n x Hp) as [s [Hs [<- _]]]; apply sub_id_in; exact Hs).
+    split; [exact Hx|]. split; [symmetry; exact E|]. exists n. auto.
+  - assert (Hy : In y (ids t)) by (destruct (a_parent_some t n y Hp) as [s [Hs [<- _]]]; apply sub_id_in; exact Hs).
+    exact (IH y x b Hy E).
+Qed.
+Lemma in_removelast_split {A} (x : A) : forall L, In x (removelast L) -> exists a b, L = a ++ x :: b /\ b <> [].
+Proof.
+  induction L as [|y r IH]; intros H; [destruct H|]. destruct r as [|z r']; [destruct H|].
+  change (removelast (y :: z :: r')) with (y :: removelast (z :: r')) in H. destruct H as [->|H].
+  - exists [], (z :: r'). split; [reflexivity|discriminate].
+  - destruct (IH H) as [a [b [E Hb]]]. exists (y :: a), b. split; [cbn; rewrite E; reflexivity|exact Hb].
+Qed.
+Lemma index_of_in n l : In n l -> exists i, index_of n l = Some i.
+Proof.
+  induction l as [|x r IH]; intros H; [destruct H|]. cbn. destruct (N.eqb x n) eqn:E; [eexists; reflexivity|].
+  destruct H as [->|H]; [rewrite N.eqb_refl in E; discriminate|]. destruct (IH H) as [i Hi]. rewrite Hi. eexists. reflexivity.
+Qed.
+
 (* the relations of one tree agree with each other *)
 Theorem tree_consistency t : NoDup (ids t) -> forall n, In n (ids t) ->
   (* a node is among its parent's children exactly once, at its index *)
